@@ -3,7 +3,7 @@ import changen as g
 from wire import hx, opt, lst
 from chancommon import KIND, CASE_WALL, run_impl, shrink_candidates, classify_common  # noqa: F401
 
-SPECS = ["C06"]
+SPECS = ["C06", "C03"]   # C03 too: a time-out of a send with read-back is justified only by an incomplete echo
 THEOREMS = ["C06.op_spec", "C06.case_spec", "C06.no_timeout_op", "C06.rut_exact", "C06.rut_ok_exact", "C06.rut_never_timeout", "C06.send_deadline", "C06.read_deadline", "C06.c06_deadline", "C06.c06_timeout_exact", "C06.c06_no_timeout"]
 AUX = ["C06S"]   # the one transport with deadline logic of its own: SubprocessChannelIO.read/write (select loop)
 QUICK_N, THOROUGH_N = 6000, 100000
